@@ -318,7 +318,7 @@ func scenarioTimeouts(enc *json.Encoder, idx int) map[string]any {
 		kind string
 		o    clientOpts
 	}
-	holders := []holder{{"stall", clientOpts{requests: 1}}, {"h1", clientOpts{requests: 1}}, {"h2", clientOpts{requests: 1}}, {"noalpn", clientOpts{requests: 1}},
+	holders := []holder{{"stall", clientOpts{requests: 1}}, {"stall", clientOpts{trickle: true}}, {"h1", clientOpts{requests: 1}}, {"h2", clientOpts{requests: 1}}, {"noalpn", clientOpts{requests: 1}},
 		// served requests, then one the client cancels (RST_STREAM), then silence: idle after serving a request all the same.
 		// (connections that never had a request served are not promised an idle cut by the statement: net/http applies
 		// IdleTimeout only between requests, the first one is under ReadTimeout)
